@@ -195,7 +195,7 @@ def _expect(m, o, dt, du):
         n = o["n"]
         if fa == 0 and n < 0:
             return None
-        return _exp(m, fa ** n, bm_pow(mu.bmap, n), dt, du)
+        return _exp(m, fa ** n, bm_pow(mu.bmap, n), dt, du, mu.factor ** n)
     mv = m.units[o["v"]]
     fb = mv.factor * (Fraction(o["b"][1]) if o["shape"][1] == "q" else 1)
     qb = m.unit_quantum(o["v"])
@@ -206,12 +206,13 @@ def _expect(m, o, dt, du):
             return None
         if mu.t == mv.t and not m.types[mu.t].has_ref and o["u"] != o["v"]:
             return None
-        return _exp(m, fa / fb, bm_mul(mu.bmap, mv.bmap, -1), dt, du)
-    return _exp(m, fa * fb, bm_mul(mu.bmap, mv.bmap, 1), dt, du)
+        return _exp(m, fa / fb, bm_mul(mu.bmap, mv.bmap, -1), dt, du, mu.factor / mv.factor)
+    return _exp(m, fa * fb, bm_mul(mu.bmap, mv.bmap, 1), dt, du, mu.factor * mv.factor)
 
 
-def _exp(m, factor, bmap, dt, du):
-    r = m.result(factor, bmap, dt, du)
+def _exp(m, factor, bmap, dt, du, unit_factor):
+    # the result unit is resolved from the operand units only (amounts play no part)
+    r = m.result(unit_factor, bmap, dt, du)
     if r[0] == "number":
         return {"kind": "number", "value": factor}
     if r[0] == "type":
